@@ -158,6 +158,68 @@ def nd_stream(ctx, n):
     ctx.notes["nd_known_finding_hits"] = bad
 
 
+def probe_attr_stream(ctx, n):
+    """Jacobian(vars, probe=<attribute>): every column is the derivative of THAT quantity (Z0, F0, ...), compared with
+    central differences of simulate(probe=<attribute>)"""
+    import epgpy as epg
+    for i in range(n):
+        attr = ctx.rng.choice(["Z0", "Z0", "F0"])
+        make, par, vars_ = real_sequences(ctx.rng)
+        try:
+            jac = np.asarray(epg.simulate(make(par, True), probe=epg.Jacobian(vars_, probe=attr))).reshape(-1)
+        except Exception as e:
+            ctx.report("Jacobian(probe=%r) raised %s" % (attr, e), {"params": par, "attr": attr}, found_input=True, signature={"raises": type(e).__name__, "site": "Jacobian-probe"})
+            continue
+        ctx.cov["probe_attr_runs"] = ctx.cov.get("probe_attr_runs", 0) + 1
+        for j, v in enumerate(vars_):
+            h = {"alpha": 1e-2, "phi": 1e-2, "tau": 1e-3, "T1": 1e-1, "T2": 1e-2, "g": 1e-5}[v]
+            f = lambda x: np.asarray(epg.simulate(make(dict(par, **{v: x}), False), probe=attr)).reshape(-1)[0]
+            x0 = par[v]
+            d1 = (f(x0 + h) - f(x0 - h)) / (2 * h)
+            d2 = (f(x0 + h / 2) - f(x0 - h / 2)) / h
+            fd = (4 * d2 - d1) / 3
+            if abs(fd - jac[j]) > 1e-6 * (1 + abs(fd)) + 1e-9:
+                ctx.report("Jacobian(probe=%r) column %s = %s but finite differences of simulate(probe=%r) give %s" % (attr, v, jac[j], attr, fd),
+                           {"params": par, "variable": v, "attr": attr}, found_input=True, signature={"jacobian-probe-attr": attr})
+                break
+
+
+def array_coef_stream(ctx, n):
+    """an ARRAY of coefficients (one per batch entry) in order1: T(nominal * B1, phi, order1={"B1": {"alpha": nominal}})
+    with 2, 3 or 4 nominal flip angles -- every batch entry against the scalar finite difference in B1"""
+    import epgpy as epg
+    for i in range(n):
+        nb = ctx.rng.choice([2, 3, 3, 4])
+        nominal = np.array([float(ctx.rng.choice([20., 35., 60., 90., 120.])) + 4 * j for j in range(nb)])
+        T2, phi = float(ctx.rng.choice([40., 80.])), float(ctx.rng.choice([0., 30.]))
+        case = {"nominal": nominal.tolist(), "T2": T2, "phi": phi}
+
+        def seq(b1, nom, diff):
+            kw = {"order1": {"B1": {"alpha": nom}}} if diff else {}
+            return [epg.T(nom * b1, phi, **kw), epg.S(1), epg.E(6.0, 900.0, T2, 0.01), epg.T(nom * b1 * 2, 10.0, **({"order1": {"B1": {"alpha": 2 * nom}}} if diff else {})),
+                    epg.S(1), epg.ADC]
+        try:
+            jac = np.asarray(epg.simulate(seq(1.0, nominal, True), probe=epg.Jacobian("B1"))).reshape(-1)
+        except Exception as e:
+            ctx.report("Jacobian with array coefficients raised %s: %s" % (type(e).__name__, str(e)[:160]), {"arraycoef": case}, found_input=True,
+                       signature={"site": "array-coefficient", "why": "raises"})
+            continue
+        ctx.cov["array_coef_runs"] = ctx.cov.get("array_coef_runs", 0) + 1
+        ctx.count(("arraycoef", repr(case)))
+        if jac.size != nb:
+            ctx.report("Jacobian with array coefficients has %d entries for %d batch entries" % (jac.size, nb), {"arraycoef": case}, found_input=True,
+                       signature={"site": "array-coefficient", "why": "shape"})
+            continue
+        for b in range(nb):
+            f = lambda x: np.ravel(np.asarray(epg.simulate(seq(x, float(nominal[b]), False))))[0]
+            h = 1e-4
+            fd = (f(1 + h) - f(1 - h)) / (2 * h)
+            if abs(jac[b] - fd) > 1e-6 * (1 + abs(fd)):
+                ctx.report("batch entry %d: dS/dB1 = %s with an array of coefficients, scalar finite differences give %s" % (b, jac[b], fd),
+                           {"arraycoef": case, "entry": b}, found_input=True, signature={"site": "array-coefficient", "why": "jacobian-vs-fd"})
+                break
+
+
 def grid_stream(ctx, n):
     """vectorised parameters on different axes (axes=): every grid point of the Jacobian must be the derivative of the
     scalar simulation at that grid point (central differences of scalar re-runs)"""
@@ -169,9 +231,21 @@ def grid_stream(ctx, n):
         phi, tau, a2 = float(ctx.rng.choice([0., 30., 90.])), float(ctx.rng.choice([4., 9.])), float(ctx.rng.choice([40., 120.]))
         case = {"alphas": alphas, "T2s": T2s, "phi": phi, "tau": tau, "a2": a2}
 
+        egrid = i % 2 == 1       # odd cases: the grid is T2 (axis 0) x T1 (axis 1) of ONE operator; "alpha" then stands for T1
+        if egrid:
+            alphas = [float(ctx.rng.choice([300., 600., 900.])) + 50 * j for j in range(na)]
+        case["egrid"] = egrid
+
         def seq(al, t2, diff, vec):
             kwa = {"order1": "alpha"} if diff else {}
             kwt = {"order1": "T2"} if diff else {}
+            if egrid:
+                kwe = {"order1": {"alpha": "T1", "T2": "T2"}} if diff else {}
+                if vec:
+                    return [epg.T(35.0, phi), epg.S(1), epg.E(tau, np.array(al).reshape(1, -1), np.array(t2), 0.01, **kwe),
+                            epg.T(a2, 10.0), epg.S(-1), epg.E(tau, 800.0, 70.0), epg.T(60.0, 0.0), epg.ADC]
+                return [epg.T(35.0, phi), epg.S(1), epg.E(tau, al, t2, 0.01, **kwe), epg.T(a2, 10.0), epg.S(-1), epg.E(tau, 800.0, 70.0),
+                        epg.T(60.0, 0.0), epg.ADC]
             if vec:
                 return [epg.T(np.array(al), phi, axes=1, **kwa), epg.S(1), epg.E(tau, 900.0, np.array(t2), 0.01, **kwt),
                         epg.T(a2, 10.0), epg.S(-1), epg.ADC]
@@ -193,7 +267,8 @@ def grid_stream(ctx, n):
             for ia in range(na):
                 f = lambda al, t2: np.ravel(np.asarray(epg.simulate(seq(al, t2, False, False))))[0]
                 h = 1e-3
-                da = (f(alphas[ia] + h, T2s[it]) - f(alphas[ia] - h, T2s[it])) / (2 * h)
+                ha = 1e-1 if egrid else h
+                da = (f(alphas[ia] + ha, T2s[it]) - f(alphas[ia] - ha, T2s[it])) / (2 * ha)
                 dt = (f(alphas[ia], T2s[it] + h) - f(alphas[ia], T2s[it] - h)) / (2 * h)
                 if abs(jac[it, ia, 0] - da) > 1e-7 + 1e-5 * abs(da) or abs(jac[it, ia, 1] - dt) > 1e-7 + 1e-5 * abs(dt):
                     bad = (it, ia, jac[it, ia, 0], da, jac[it, ia, 1], dt)
@@ -260,8 +335,10 @@ def run(ctx):
                 ctx.report("Jacobian column %s = %s but finite differences of simulate() give %s" % (v, jac[j], fd),
                            {"params": par, "variable": v}, found_input=True, signature={"jacobian-vs-fd": v})
     known_witnesses(ctx)
+    probe_attr_stream(ctx, 4 if quick else 60)
     nd_stream(ctx, 40 if quick else 1200)
     grid_stream(ctx, 6 if quick else 150)
+    array_coef_stream(ctx, 5 if quick else 100)
     ctx.cov["trusted_base"] += [
         "translator (Gen/Transition.v, Gen/Evolution.v) validated by the Interval tie at %d function-points" % nok,
         "hand-written bookkeeping model Model/Diff.v tied to epgpy/diff.py by exact correspondence of sm.order1 after every operator",
